@@ -547,6 +547,7 @@ def bld_pred(which):
         faulted = False
         blocked = False       # ops B / b: the services answer Pending to their readiness checks (back-pressure)
         armed_call = None     # ops X / x: the service of this builder call fails its next readiness check
+        rot = []              # workers of the most recent connections dispatched one at a time with no worker at its limit
         for k, (op, served, act, notes) in enumerate(steps):
             if notes:
                 # '!' notes: a service call that did not start/end within 30 s, an unacknowledged command, a connect error, a second
@@ -612,6 +613,19 @@ def bld_pred(which):
                 # (a call that starts at `b` was dispatched before: while the services were not ready the worker left it in its queue)
                 if "C05" in which and paused and op not in ("R", "b") and not (op[0] == "Q" and burst_resumes):
                     return "step %d (%s): connection %d dispatched while the server was paused" % (k, op, c)
+            # C04/C08, with or without faults: once a replacement has joined, the rotation goes on — any W consecutive connections that
+            # are dispatched one at a time while no worker is at its limit go to W distinct workers (the order of the rotation may
+            # have changed with the replacement, its period has not)
+            if ("C04" in which or "C08" in which) and W >= 2 and L > 1:
+                if op and op[0] in "KJE" or blocked or paused or len(served) > 1 or any(a >= L for a in act[:W]) or len(act) < W:
+                    rot = []
+                elif len(served) == 1 and op[0] == "c":
+                    rot.append(served[0][2])
+                    if len(rot) >= W and len(set(rot[-W:])) < W:
+                        return "step %d (%s): the last %d connections went to workers %s although no worker was at its limit (%s): not a rotation over %d workers" % (
+                            k, op, W, rot[-W:], act, W)
+                elif op and op[0] not in "f+":
+                    rot = []
             if faulted:
                 continue       # C02/C03/C04 speak about runs without a worker fault
             if "C02" in which and any(a > L for a in act):
